@@ -242,4 +242,31 @@ func dischargeAll(obls []*Obligation, dir string, timeout time.Duration, tier st
 		}(o)
 	}
 	wg.Wait()
+	// second chance for undecided obligations: run them again, few at a time and with twice the time (a solver that
+	// was starved while everything ran in parallel, or an unlucky instantiation order, is not a verdict)
+	var again []*Obligation
+	for _, o := range obls {
+		if !o.ExpectSat && o.Status == "failed" && (o.Answer == "timeout" || o.Answer == "unknown") {
+			again = append(again, o)
+		}
+	}
+	if len(again) == 0 || len(again) > 12 {
+		return
+	}
+	sem2 := make(chan struct{}, 3)
+	for _, o := range again {
+		wg.Add(1)
+		sem2 <- struct{}{}
+		go func(o *Obligation) {
+			defer wg.Done()
+			defer func() { <-sem2 }()
+			r := solve(o.script, dir, o.Name+"_retry", 2*timeout, nil, false)
+			if r.answer == "unsat" {
+				o.Status, o.Answer, o.Solver, o.Secs = "discharged", "unsat", r.solver+" (retry)", o.Secs+r.secs
+			} else if r.answer == "sat" {
+				o.Answer, o.Model = "sat", r.output
+			}
+		}(o)
+	}
+	wg.Wait()
 }
